@@ -1,4 +1,6 @@
 import Mochi.Lemmas.Invariant
+import Mochi.Lemmas.Refine
+import Mochi.Lemmas.IndexConc
 /-!
 # C31 — The topic index stays consistent under any concurrent history (sequential core)
 
@@ -6,9 +8,19 @@ Proved here, for every history of index operations:
 * the particle list stays prefix-closed (the structural invariant every query relies on);
 * `trim` never removes a particle that holds a subscription, shared or inline subscription or a
   retained path.
-The return-value clause (is-new / existed) and the refinement to plain sets and maps are in
-`C31_refines` (Props/C31R.lean) once present; serialisability of concurrent batches rests on the
-root-lock fact regenerated from the source (tie A) and on the concurrent correspondence run.
+* `C31_seq_refines` — every reachable index holds exactly the subscriptions, shared and inline
+  subscriptions and retained records of the plain sets and maps (`absRun`) — so every query is answered
+  from the same data as the simple set/map would hold (C01/C02 turn that into the query answers);
+* `C31_return_values` — Subscribe/InlineSubscribe report is-new, Unsubscribe/InlineUnsubscribe report
+  existed, RetainMessage its counter delta, exactly as the plain sets and maps would;
+* `C31_serializable` — for any number of goroutines, any programs of mutators and **any schedule**: when
+  every mutator brackets its read-compute-write with the root lock (the fact regenerated from
+  topics.go, `Gen/RootLock.lean`), the index at every moment equals the sequential run of the mutators in
+  the order of their writes, and that order preserves each goroutine's program order; together with the
+  two theorems above: the index answers as the plain sets/maps after that serial order.
+  `C31_unlocked_counterexample` shows the lock fact is what carries this (a lost update without it).
+Tie: the `topicsconc` suite runs random batches on several goroutines against the real index and the
+driver searches the serial order that explains the observed return values and final index.
 -/
 namespace Mochi.Topics
 
@@ -20,6 +32,63 @@ theorem C31_prefix_closed (ops : List IOp) : PrefixClosed (runOps ops).nodes :=
 theorem C31_trim_safe (ns : List Node) (p : Path) (fuel : Nat) (q : Path) (n : Node)
     (hn : getNode ns q = some n) (hlive : live n) : getNode (trim ns p fuel) q = some n :=
   trim_keeps ns p fuel q n hn hlive
+
+/-- the trie holds exactly what the plain sets and maps hold, after every history -/
+theorem C31_seq_refines (ops : List IOp) : Refines (runOps ops) (absRun ops) := refines_runOps_all ops
+
+/-- return values: is-new / existed / retained-counter delta, as the plain sets and maps give them -/
+theorem C31_return_values (ops : List IOp) (op : IOp) :
+    opResult (runOps ops) op = (absRun ops).opResult op := opResult_refines ops op
+
+open Conc in
+/-- **Serialisability under the root lock**, for every set of goroutine programs and every schedule:
+    the index equals the sequential run of the mutators in the order of their writes (`log`), and for
+    every goroutine the mutators it has written so far followed by those it has still to write are its
+    program — the serial order respects every goroutine's program order. -/
+theorem C31_serializable (progs : List (List IOp)) (sched : List Nat) :
+    let s := runSched true (start progs) sched
+    s.idx = runOps (s.log.map (·.2)) ∧
+    (∀ (i : Nat) (t : Thr), s.thrs[i]? = some t → doneOf s i ++ remaining t = progs[i]?.getD []) ∧
+    Refines s.idx (absRun (s.log.map (·.2))) := by
+  intro s
+  have h := inv_run progs sched _ (inv_start progs)
+  refine ⟨h.idx, h.order, ?_⟩
+  rw [h.idx]
+  exact refines_runOps_all _
+
+open Conc in
+/-- when every goroutine has finished, its whole program is in the serial order -/
+theorem C31_serializable_finished (progs : List (List IOp)) (sched : List Nat)
+    (hfin : finished (runSched true (start progs) sched) = true) (i : Nat) (hi : i < progs.length) :
+    doneOf (runSched true (start progs) sched) i = progs[i]?.getD [] := by
+  have h := inv_run progs sched _ (inv_start progs)
+  have hlen : i < (runSched true (start progs) sched).thrs.length := by rw [h.len]; exact hi
+  have ht : (runSched true (start progs) sched).thrs[i]? = some ((runSched true (start progs) sched).thrs[i]) := by
+    simp [hlen]
+  have ho := h.order i _ ht
+  have hempty : ((runSched true (start progs) sched).thrs[i]).ops = [] := by
+    have := List.all_eq_true.1 hfin _ (List.getElem_mem hlen)
+    simpa using this
+  rw [← ho]
+  simp [remaining, hempty]
+
+open Conc in
+/-- without the lock two goroutines lose an update: both read the empty index, both write; the index
+    ends with one subscription although two mutators ran — no serial order yields that -/
+theorem C31_unlocked_counterexample :
+    let progs : List (List IOp) := [[.subscribe [1] { filter := [97] }], [.subscribe [2] { filter := [97] }]]
+    let s := runSched false (start progs) [0, 1, 0, 1]
+    finished s = true ∧ s.log.length = 2 ∧
+    s.idx.nodes ≠ (runOps (s.log.map (·.2))).nodes ∧
+    s.idx.nodes ≠ (runOps ((s.log.map (·.2)).reverse)).nodes := by decide
+
+open Conc in
+/-- non-vacuity of `C31_serializable`: a schedule on which two goroutines really interleave (the second
+    is refused the lock, then gets it) and both finish -/
+example :
+    let progs : List (List IOp) := [[.subscribe [1] { filter := [97] }, .unsubscribe [97] [2]], [.subscribe [2] { filter := [97] }]]
+    let s := runSched true (start progs) [0, 1, 0, 0, 0, 1, 1, 1, 1, 0, 0, 0, 0]
+    finished s = true ∧ s.log.map (·.1) = [0, 1, 0] ∧ (s.idx.nodes.map (·.subs.length)) = [1] := by decide
 
 /-- non-vacuity: unsubscribing one of two clients keeps the particle, unsubscribing both removes the
     whole branch -/
